@@ -8,7 +8,7 @@ Definition ex_cfg : config :=
   mkConfig 2 0 3 true 2
     [[(0, CStart 0 5 0); (1, CStart 1 6 3); (2, CGet 0); (3, CAbort 1); (4, CGet 1); (5, CCheck 1);
       (6, CStart 0 7 0); (7, CJoin 0)]%nat]
-    (fun a => 7 * a + 3) true.
+    (fun a => 7 * a + 3) true true false.
 
 (* lowest-numbered thread that can move, until nobody can *)
 Fixpoint auto_sched (cfg : config) (s : state) (fuel : nat) : list move :=
@@ -23,7 +23,7 @@ Definition ex_sched : list move := auto_sched ex_cfg (init ex_cfg) 2000.
 
 Lemma ex_wf : wf_cfg ex_cfg (fun _ => 0%nat).
 Proof.
-  split; [reflexivity|]. intros c f (i & op & Hin & Hop). destruct c as [|c].
+  split; [reflexivity|]. split; [|reflexivity]. intros c f (i & op & Hin & Hop). destruct c as [|c].
   - cbn in Hin |- *.
     repeat (destruct Hin as [E|Hin]; [inversion E; subst; cbn in Hop; inversion Hop; split; [lia|reflexivity]|]).
     contradiction.
